@@ -1,4 +1,4 @@
-CONSTANTS CiStart = 14 K = 6 NP = 2 Sizes = {0, 1, 2, 4, 7} Fills = {0, 1, 2} MaxBlocks = 3 Faults = {"none", "drop", "err2"} Units = {"bp"} Policies = {"strict", "lenient"} UnitBlocks = 2 TailCheck = TRUE Foreign = {"none", "page"} TailAtForeign = FALSE
+CONSTANTS CiStart = 14 K = 6 NP = 2 Sizes = {0, 1, 2, 4, 7} Fills = {0, 1, 2} MaxBlocks = 3 Faults = {"none", "drop", "err2"} Units = {"bp"} Policies = {"strict", "lenient"} UnitBlocks = 2 TailCheck = TRUE Foreign = {"none", "page"} TailAtForeign = FALSE Noise = {0} NoisePos = {"all"} NoiseFaults = {"none"}
 SPECIFICATION Spec
 INVARIANTS Sound Complete Resume
 CHECK_DEADLOCK FALSE
